@@ -16,7 +16,17 @@ TECHNIQUE = 'bounded-exhaustive trees (generated documents + tolerant parses of 
 SPECS = {'quick': dict(R=4, L=3, A=3, Z=3), 'thorough': dict(R=5, L=4, A=4, Z=4)}
 
 
-def make_recorder():
+FALSY = [0, '', None, (), False]
+
+
+def result_value(counter, falsy):
+    # callbacks may return anything, also falsy values: the parent must be handed exactly that
+    if falsy:
+        return FALSY[counter % len(FALSY)]
+    return ('r', counter)
+
+
+def make_recorder(falsy=False):
     from pylatexenc.latexnodes.nodes import LatexNodesVisitor
 
     class Rec(LatexNodesVisitor):
@@ -26,7 +36,7 @@ def make_recorder():
 
         def _rec(self, name, obj, kwargs):
             self.counter += 1
-            rid = ('r', self.counter)
+            rid = result_value(self.counter, falsy)
             self.events.append((name, id(obj), tuple(sorted((k, _fz(v)) for k, v in kwargs.items())), rid))
             return rid
 
@@ -51,13 +61,14 @@ def _fz(v):
 
 class Ref(object):
     """Independent post-order walk over public attributes; produces the expected events."""
-    def __init__(self):
+    def __init__(self, falsy=False):
         self.events = []
         self.counter = 0
+        self.falsy = falsy
 
     def emit(self, name, obj, **kwargs):
         self.counter += 1
-        rid = ('r', self.counter)
+        rid = result_value(self.counter, self.falsy)
         self.events.append((name, id(obj), tuple(sorted((k, _fz(v)) for k, v in kwargs.items())), rid))
         return rid
 
@@ -121,21 +132,27 @@ def check_tree(nodes, case, acc, sub):
     if nodes is None:
         acc.count('none_result')
         return
-    rec = make_recorder()
+    for falsy in (False, True):
+        _check_tree_mode(nodes, case, acc, sub, falsy)
+
+
+def _check_tree_mode(nodes, case, acc, sub, falsy):
+    rec = make_recorder(falsy)
     st, res = run_guarded(rec.start, nodes)
     if st != 'ok':
         acc.violation(ID, sub, case, dict(kind='visitor-raises' if st == 'exc' else 'hang',
                                           exc=type(res).__name__ if st == 'exc' else None,
                                           frame=exc_frame(res) if st == 'exc' else None))
         return
-    ref = Ref()
+    ref = Ref(falsy)
     ref.node(nodes)
     kinds = [e[0] for e in ref.events]
-    acc.outcome(tuple(kinds))
-    if any(k in ('group', 'math', 'macro', 'environment', 'specials') for k in kinds):
-        acc.count('nontrivial')
-    for k in set(kinds):
-        acc.count('kind_' + k)
+    if not falsy:
+        acc.outcome(tuple(kinds))
+        if any(k in ('group', 'math', 'macro', 'environment', 'specials') for k in kinds):
+            acc.count('nontrivial')
+        for k in set(kinds):
+            acc.count('kind_' + k)
     if rec.events != ref.events:
         # classify
         ids_rec = [e[1] for e in rec.events]
@@ -148,7 +165,7 @@ def check_tree(nodes, case, acc, sub):
             kind = 'child-results-differ'
         i = next((j for j, (a, b) in enumerate(zip(rec.events, ref.events)) if a != b), min(len(rec.events), len(ref.events)))
         at = ref.events[i][0] if i < len(ref.events) else 'end'
-        acc.violation(ID, sub, case, dict(kind=kind, at=at),
+        acc.violation(ID, sub, case, dict(kind=kind, at=at, falsy_results=falsy),
                       observed=repr([(e[0], e[2], e[3]) for e in rec.events])[:800],
                       expected=repr([(e[0], e[2], e[3]) for e in ref.events])[:800])
 
